@@ -9,27 +9,27 @@ DEFAULT = {
 }
 
 PLANS = {
-    "C01": {"level": "exploration", "quick": {"n": 220}, "thorough": {"n": 5000}, "min_eval": 30},
-    "C02": {"level": "exploration", "quick": {"n": 260}, "thorough": {"n": 6000}, "min_eval": 30},
-    "C03": {"level": "exploration", "quick": {"n": 800}, "thorough": {"n": 20000}, "min_eval": 50},
-    "C04": {"level": "fault_enumeration", "quick": {"n": 64}, "thorough": {"n": 1200}, "min_eval": 30},
-    "C05": {"level": "exploration", "quick": {"n": 480}, "thorough": {"n": 10000}, "min_eval": 30},
-    "C06": {"level": "exploration", "quick": {"n": 640}, "thorough": {"n": 12000}, "min_eval": 50},
-    "C07": {"level": "exploration", "quick": {"n": 800}, "thorough": {"n": 15000}, "min_eval": 50},
-    "C08": {"level": "exploration", "quick": {"n": 2400}, "thorough": {"n": 60000}, "min_eval": 200},
-    "C09": {"level": "exploration", "quick": {"n": 400}, "thorough": {"n": 8000}, "min_eval": 30},
-    "C10": {"level": "exploration", "quick": {"n": 400}, "thorough": {"n": 8000}, "min_eval": 30},
-    "C11": {"level": "fault_enumeration", "quick": {"n": 96}, "thorough": {"n": 1600}, "min_eval": 30},
-    "C12": {"level": "exploration", "quick": {"n": 480}, "thorough": {"n": 9000}, "min_eval": 30},
-    "C13": {"level": "exploration", "quick": {"n": 320}, "thorough": {"n": 8000}, "min_eval": 30},
-    "C14": {"level": "exploration", "quick": {"n": 1600}, "thorough": {"n": 40000}, "min_eval": 100},
+    "C01": {"level": "exploration", "quick": {"n": 1600}, "thorough": {"n": 24000}, "min_eval": 30},
+    "C02": {"level": "exploration", "quick": {"n": 2000}, "thorough": {"n": 30000}, "min_eval": 30},
+    "C03": {"level": "exploration", "quick": {"n": 3000}, "thorough": {"n": 80000}, "min_eval": 50},
+    "C04": {"level": "fault_enumeration", "quick": {"n": 160}, "thorough": {"n": 2400}, "min_eval": 30},
+    "C05": {"level": "exploration", "quick": {"n": 4000}, "thorough": {"n": 60000}, "min_eval": 30},
+    "C06": {"level": "exploration", "quick": {"n": 6000}, "thorough": {"n": 100000}, "min_eval": 50},
+    "C07": {"level": "exploration", "quick": {"n": 6000}, "thorough": {"n": 90000}, "min_eval": 50},
+    "C08": {"level": "exploration", "quick": {"n": 16000}, "thorough": {"n": 300000}, "min_eval": 200},
+    "C09": {"level": "exploration", "quick": {"n": 3200}, "thorough": {"n": 50000}, "min_eval": 30},
+    "C10": {"level": "exploration", "quick": {"n": 3000}, "thorough": {"n": 50000}, "min_eval": 30},
+    "C11": {"level": "fault_enumeration", "quick": {"n": 800}, "thorough": {"n": 12000}, "min_eval": 30},
+    "C12": {"level": "exploration", "quick": {"n": 4000}, "thorough": {"n": 60000}, "min_eval": 30},
+    "C13": {"level": "exploration", "quick": {"n": 640}, "thorough": {"n": 9000}, "min_eval": 30},
+    "C14": {"level": "exploration", "quick": {"n": 8000}, "thorough": {"n": 150000}, "min_eval": 100},
     "C15": {"level": "fault_enumeration", "quick": {"n": 16}, "thorough": {"n": 64}, "min_eval": 30,
             "thorough_over": {"budget_s": 1100, "timeout_s": 2400}},
-    "C16": {"level": "exploration", "quick": {"n": 48}, "thorough": {"n": 800}, "min_eval": 10},
-    "C17": {"level": "exploration", "quick": {"n": 1200}, "thorough": {"n": 30000}, "min_eval": 50},
-    "C18": {"level": "fault_enumeration", "quick": {"n": 128}, "thorough": {"n": 2500}, "min_eval": 20},
+    "C16": {"level": "exploration", "quick": {"n": 96}, "thorough": {"n": 1600}, "min_eval": 10},
+    "C17": {"level": "exploration", "quick": {"n": 6000}, "thorough": {"n": 90000}, "min_eval": 50},
+    "C18": {"level": "fault_enumeration", "quick": {"n": 800}, "thorough": {"n": 12000}, "min_eval": 20},
     "C19": {"level": "exploration", "quick": {"n": 16}, "thorough": {"n": 16}, "min_eval": 500},
-    "C20": {"level": "exploration", "quick": {"n": 2400}, "thorough": {"n": 60000}, "min_eval": 100},
+    "C20": {"level": "exploration", "quick": {"n": 16000}, "thorough": {"n": 300000}, "min_eval": 100},
 }
 
 
